@@ -106,11 +106,13 @@ func (c *c19env) exec() *ssax.Exec {
 		}
 		okv := x.Declare(x.Fresh("setstring.ok"), 0)
 		num := &ssax.Opaque{Tag: fmt.Sprintf("big.SetString/base%d", base.Int()), Args: []ssax.Val{args[1]}}
-		// the receiver keeps the number (later in-place operations such as Mod act on it); the returned
-		// pointer is the receiver - or nil for a malformed numeral, which the opaque number stands for as well
+		// the returned pointer stands for the number the numeral denotes - or nil for a malformed numeral; it is
+		// a tracked cell so that later in-place operations (Mod) act on it. The receiver itself is another
+		// thing: after a failed parse it is not nil but holds an unspecified value, so code that goes on with
+		// the receiver instead of the returned pointer does not refuse malformed numerals
 		if p, ok := args[0].(*ssax.PtrV); ok && !p.IsNil() {
-			x.Store(p, num)
-			return &ssax.TupleV{E: []ssax.Val{p, okv}}
+			x.Store(p, &ssax.Opaque{Tag: fmt.Sprintf("big.SetString.receiver/base%d", base.Int()), Args: []ssax.Val{args[1]}})
+			return &ssax.TupleV{E: []ssax.Val{&ssax.PtrV{Root: &ssax.Cell{V: num}}, okv}}
 		}
 		return &ssax.TupleV{E: []ssax.Val{num, okv}}
 	}
